@@ -74,3 +74,39 @@ def fill(claim, na):
           "echo; a phase is accepted once; payloads pass the front-end unmodified; the mailbox is re-opened on each connection "
           "(product invariant). NOT decided: the composed two-party trace equality (paper argument over these lemmas).",
           "T1, T3, T4", "DESIGN.md 4/C03")
+    claim("C04",
+          "CFG guard-dominance / ordering / must-pass-through rules + def-use plumbing of the hash and the file object",
+          "Decides the structural clauses: the receiver returns from _transfer_data only past received>=xfersize (short edge "
+          "raises) having asked for exactly xfersize bytes; transfer precedes writing the destination precedes the ack, all "
+          "awaited; payload staged in a truncating open of <dest>.tmp, renamed only in _write_file after close; the acknowledged "
+          "sha256 is the digest of the hasher the transfer fed; the sender completes only past ack==ok and (if present) sha256 "
+          "equality with the hash of the chunks it sent through an identity transform; the consumer Deferred fires only at the "
+          "expected count and errbacks on loss. NOT decided: what zipfile/FileSender/tqdm do with the bytes.",
+          "T1, T2", "DESIGN.md 4/C04")
+    claim("C05",
+          "taint / allowed-shape rule on the destination path, who-may-write table of filesystem-mutating call sites, CFG guard dominance",
+          "Decides: the offered name reaches a path only as os.path.basename(name) placed directly into abspath(join(cwd[, "
+          "output_file], .)), every other use is display; the offer's name fields go nowhere else; the filesystem-mutating call "
+          "sites in cmd_receive.py are exactly the reviewed ones (no rmtree/rmdir/extractall) with destination-derived paths; "
+          "zip members are extracted/chmod-ed only past the abspath+startswith(dir+sep) guard; overwrite only under --output-file, "
+          "an existing destination otherwise raises; _remove_existing removes files only, refuses directories and is applied on "
+          "both the --accept-file and the interactive path. NOT decided: symlinks below the destination, the .tmp sibling.",
+          "T1, T2 (os.path.basename/abspath, zipfile)", "DESIGN.md 4/C05")
+    claim("C06",
+          "CFG guard dominance + attribute write-discipline (monotone counters, FIFO queues) + role-table and framing-width agreement between writer and reader",
+          "Decides: decrypt only past nonce==counter (unequal edge raises), counter +1 once per record, nonces never reset; "
+          "2x2 role table of record keys (cross-role equal, directions differ); writer/reader agree on the 4-byte big-endian "
+          "length prefix and the 24-byte nonce; any exception in dataReceived drops the connection and enters the terminal state "
+          "where no record is handled; records reach the application only from the decrypt result through FIFO queues, the "
+          "consumer is attached without reordering; loss/close errback all waiting reads and the consumer Deferred. NOT decided: "
+          "SecretBox authenticity, TCP.",
+          "T1, T2", "DESIGN.md 4/C06")
+    claim("C07",
+          "CFG guard dominance / ordering, attribute write-once discipline, role tables, constant evaluation of the deadline",
+          "Decides: only a sender answers go, only while no winner is recorded and on the path recording it; a receiver proceeds "
+          "only after the literal go line; decision states come only from connection_ready, consulted only after the expected "
+          "handshake matched; _check_and_remove is a stateless full-prefix comparison whose divergence raises and whose callers "
+          "wait on False; handshake role table; connect() returns only _not_forever(deadline, race of listener+direct+relay "
+          "contenders), per-connection timeout armed, winner cancels losers, summary fires once. NOT decided: byte-level races "
+          "between live connections.",
+          "T1, T2", "DESIGN.md 4/C07")
